@@ -91,6 +91,8 @@ class Plan:
         self.fired: list[tuple[str, int, str, bool]] = []  # (site, k, how, before_first_replace)
         self.replaced = 0                          # number of os.replace calls that returned
         self.lock = threading.Lock()
+        self.counts_at_fire: list[dict[str, int]] = []   # per fired fault: calls counted so far, by site
+        self.on_fire = None                        # optional hook (recording runs under a first fault)
 
     def hit(self, site: str) -> list | None:
         with self.lock:
@@ -100,6 +102,9 @@ class Plan:
             action = self.faults.get((site, k))
             if action is not None:
                 self.fired.append((site, k, action[0], self.replaced == 0))
+                self.counts_at_fire.append(dict(self.counts))
+                if self.on_fire is not None:
+                    self.on_fire()
             return action
 
     def note_replaced(self) -> None:
